@@ -586,6 +586,34 @@ Theorem C19_json_annotations_roundtrip :
 Proof. exact json_ann_roundtrip. Qed.
 Print Assumptions C19_json_annotations_roundtrip.
 
+(* "those bytes parse as a manifest of the returned media type", for the modelled json.Marshal and
+   without the premise json_roundtrip: reading the head of the document (doc_media_type / doc_artifact_type:
+   the mediaType field, after "schemaVersion":2 when present, and the artifactType field next to it) ... *)
+Theorem C19_document_declares_media_type :
+  forall m, doc_media_type (json_manifest m) = Some (kind_mt (m_kind m)).
+Proof. exact doc_media_type_json. Qed.
+Print Assumptions C19_document_declares_media_type.
+
+Theorem C19_document_declares_artifact_type :
+  forall m, doc_artifact_type (json_manifest m) =
+            match m_kind m, m_at m with KImage, [] => None | _, a => Some (utf8_san a) end.
+Proof. exact doc_artifact_type_json. Qed.
+Print Assumptions C19_document_declares_artifact_type.
+
+(* ... so the document stored under the returned descriptor declares that descriptor's media type and
+   the requested artifact type (for a collision-free digest). *)
+Theorem C19_stored_document_declares :
+  forall (H : str -> str), H empty_json = empty_json_digest -> (forall x y, H x = H y -> x = y) ->
+  forall f tc fa s at_ o now s' d m,
+    wf_store H (s_store s) ->
+    pack json_manifest H f tc fa s at_ o now = (s', Ok d m) ->
+    exists e, In e (s_store s') /\ same_key (t_key tc) d e = true /\
+              doc_media_type (e_bytes e) = Some (d_mt d) /\
+              doc_artifact_type (e_bytes e) =
+                match m_kind m, m_at m with KImage, [] => None | _, a => Some (utf8_san a) end.
+Proof. exact stored_document_declares. Qed.
+Print Assumptions C19_stored_document_declares.
+
 (* ... so Pack with the real marshalling is independent of the order of the manifest annotations. *)
 Theorem C19_annotation_order_independent_json :
   forall (H : str -> str), H empty_json = empty_json_digest ->
